@@ -39,6 +39,7 @@ def big(b):
 
 
 # ----------------------------------------------------------------------------- scripted handlers
+EVENTS = {}         # rendezvous key -> threading.Event
 SCRIPTS = {}        # uri -> case
 RECORDS = {}        # client port -> (status lines produced, bytes left in _headers_buffer)
 
@@ -94,6 +95,13 @@ class ScriptHandler(S.HttpRequestHandler):
         act = context["act"]
         if act is None:
             raise RuntimeError("scripted handle failure")
+        rv = context.get("rendezvous")
+        if rv is not None:                      # ("wait", key): needs ANOTHER request to be served meanwhile
+            ev = EVENTS.setdefault(rv[1], threading.Event())
+            if rv[0] == "set":
+                ev.set()
+            elif not ev.wait(3.0):
+                return (http.HTTPStatus.SERVICE_UNAVAILABLE, {"X-Rendezvous": "alone"}, io.BytesIO(b"alone"))
         status, hdrs, b = act
         stream = None
         if b is not None:
@@ -415,6 +423,9 @@ class C03(Check):
         return key
 
     def show(self, c):
+        if c.get("_extra"):
+            return c
+
         def sh(h):
             a = h["act"]
             if a is not None:
@@ -469,7 +480,69 @@ class C03(Check):
         p = canonical(raw)
         return p[0] == 1 and p[1] == 200 and p[4] == b"alive" and n == 1 and left == 0
 
+    def concurrency_probe(self, report):
+        """the server keeps answering while other requests are in flight (both tiers):
+        (1) a client has sent only part of its request head - another request must be answered meanwhile;
+        (2) rendezvous: a handler waits until a SECOND request has been handled."""
+        deadline = 1.5
+        fails = []
+        port = server_port()
+        # (1) half-sent request
+        a = socket.socket(socket.AF_INET6, socket.SOCK_STREAM)
+        a.settimeout(5.0)
+        try:
+            a.connect(("::1", port))
+            a.sendall(b"GET /c/half-sent HTTP/1.0\r\nHost: verif\r\n")          # no blank line yet
+            time.sleep(0.05)
+            c = self.mk("GET", [handler(act=(200, H(1), (b"second client", False)))])
+            t0 = time.time()
+            raw, n, left = do_request(c, timeout=deadline)
+            p = canonical(raw)
+            if not (p[0] == 1 and p[1] == 200 and p[4] == b"second client"):
+                fails.append(({"_extra": True, "probe": "second request while a first client has sent half of its request head",
+                               "deadline_s": deadline, "waited_s": round(time.time() - t0, 2)},
+                              ["keeps_answering_concurrent_requests"], common._jsonable(p), None))
+            a.sendall(b"\r\n")
+            try:
+                while a.recv(65536):
+                    pass
+            except OSError:
+                pass
+        finally:
+            a.close()
+        # (2) rendezvous of two handlers
+        key = "rv%d" % next(self._seq)
+        h1 = handler(act=(200, H(1), (b"met", False)))
+        h1["rendezvous"] = ("wait", key)
+        h2 = handler(act=(200, None, (b"setter", False)))
+        h2["rendezvous"] = ("set", key)
+        c1, c2 = self.mk("GET", [h1]), self.mk("POST", [h2])
+        res = {}
+
+        def first():
+            res["r1"] = do_request(c1, timeout=4.0)
+        t = threading.Thread(target=first)
+        t0 = time.time()
+        t.start()
+        time.sleep(0.1)
+        raw2, _n2, _l2 = do_request(c2, timeout=deadline)
+        t.join()
+        p1, p2 = canonical(res["r1"][0]), canonical(raw2)
+        took = time.time() - t0
+        if not (p1[0] == 1 and p1[1] == 200 and p1[4] == b"met" and p2[0] == 1 and p2[1] == 200 and took < 2.5):
+            fails.append(({"_extra": True, "probe": "rendezvous: the handler of request 1 waits until request 2 has been handled",
+                           "deadline_s": deadline, "took_s": round(took, 2)},
+                          ["keeps_answering_concurrent_requests"], common._jsonable([p1, p2]), None))
+        EVENTS.pop(key, None)
+        report["extra"]["concurrency_probes"] = 2
+        if fails:
+            report["impl_failures"] += len(fails)
+            report.setdefault("extra_failing", []).extend(fails)
+        return not fails
+
     def extra_checks(self, tier, rng, report):
+        if not self.concurrency_probe(report):
+            return                      # a server that serialises requests would make the batches below time out one by one
         nthreads = 8
         rounds = 2 if tier == "quick" else 12
         per = 6 if tier == "quick" else 25
